@@ -34,6 +34,7 @@ inline std::string Keys(Rng & r, int hosts, bool full)
 
 inline Plan Gen(uint64_t seed)
 {
+   gen::ClauseModeScope clauseMode(seed);
    Rng cfg(seed, "config"), wl(seed, "workload"), fl(seed, "faults");
    Plan p;
    const int clients = 2 + (int) cfg.below(4), hosts = 1 + (int) cfg.below(3);
